@@ -101,6 +101,20 @@ pub fn cases(tier: Tier) -> Vec<Case> {
 }
 
 type Fut = Pin<Box<dyn Future<Output = Result<AppendResult, WriteError>>>>;
+const GRACE: Duration = Duration::from_secs(30);
+
+/// Awaits with the deadline; a miss is followed by one longer wait so that a machine that is merely slow (other jobs
+/// competing for the cores) is told apart from a wake-up that never comes.  Returns false if neither wait ends.
+fn await_bounded(h: &H, f: &mut Fut, slow: &mut u64) -> bool {
+    if h.rt.block_on(async { tokio::time::timeout(DEADLINE, f.as_mut()).await }).is_ok() {
+        return true;
+    }
+    if h.rt.block_on(async { tokio::time::timeout(GRACE, f.as_mut()).await }).is_ok() {
+        *slow += 1;
+        return true;
+    }
+    false
+}
 
 pub fn run_case(case: &Case, out: &mut WorkerOut) {
     let cfg = DbCfg::simple(MIN_SEG, true, case.sync);
@@ -112,6 +126,7 @@ pub fn run_case(case: &Case, out: &mut WorkerOut) {
     let n = case.steps.len();
     let mut parked: Vec<(usize, usize, Fut, Instant)> = Vec::new(); // (issued at step, resume after step, future, issued time)
     let mut worst = Duration::ZERO;
+    let mut slow = 0u64;
     let mut report = |out: &mut WorkerOut, kind: &str, detail: String| {
         let rolled = case.steps.iter().filter(|(s, _)| *s == Size::Block).count() >= 3;
         out.violation(&format!("C20/{kind}/{}", if rolled { "with-rollover" } else { "no-rollover" }), &format!("{detail} [sync {:?} steps {:?}]", case.sync, case.steps), case_json.clone());
@@ -125,10 +140,10 @@ pub fn run_case(case: &Case, out: &mut WorkerOut) {
         match mode {
             Mode::AwaitNow => {
                 let t0 = Instant::now();
-                match h.rt.block_on(async { tokio::time::timeout(DEADLINE, fut.as_mut()).await }) {
-                    Ok(_) => worst = worst.max(t0.elapsed()),
-                    Err(_) => {
-                        report(out, "append-never-completed/awaited-at-once", format!("append #{i} awaited immediately did not return within {DEADLINE:?}"));
+                match await_bounded(&h, &mut fut, &mut slow) {
+                    true => worst = worst.max(t0.elapsed()),
+                    false => {
+                        report(out, "append-never-completed/awaited-at-once", format!("append #{i} awaited immediately did not return within {DEADLINE:?} + {GRACE:?}"));
                         return;
                     }
                 }
@@ -148,10 +163,10 @@ pub fn run_case(case: &Case, out: &mut WorkerOut) {
                 let (issued, _, mut f, _) = parked.remove(k);
                 out.transitions += 1;
                 let t0 = Instant::now();
-                match h.rt.block_on(async { tokio::time::timeout(DEADLINE, f.as_mut()).await }) {
-                    Ok(_) => worst = worst.max(t0.elapsed()),
-                    Err(_) => {
-                        report(out, "append-never-completed/parked-then-resumed", format!("append #{issued} (polled once, resumed after step {}) did not return within {DEADLINE:?} of being resumed", i + 1));
+                match await_bounded(&h, &mut f, &mut slow) {
+                    true => worst = worst.max(t0.elapsed()),
+                    false => {
+                        report(out, "append-never-completed/parked-then-resumed", format!("append #{issued} (polled once, resumed after step {}) did not return within {DEADLINE:?} + {GRACE:?} of being resumed", i + 1));
                         return;
                     }
                 }
@@ -162,11 +177,12 @@ pub fn run_case(case: &Case, out: &mut WorkerOut) {
     }
     for (issued, _, mut f, _) in parked {
         out.transitions += 1;
-        if h.rt.block_on(async { tokio::time::timeout(DEADLINE, f.as_mut()).await }).is_err() {
-            report(out, "append-never-completed/parked-then-resumed", format!("append #{issued} (polled once, resumed at the end of the {n}-step history) did not return within {DEADLINE:?}"));
+        if !await_bounded(&h, &mut f, &mut slow) {
+            report(out, "append-never-completed/parked-then-resumed", format!("append #{issued} (polled once, resumed at the end of the {n}-step history) did not return within {DEADLINE:?} + {GRACE:?}"));
             return;
         }
     }
+    out.count("appends_that_needed_the_grace_period", slow);
     out.state(vcommon::fnv(format!("{:?}", case.steps).as_bytes()));
     out.outcome(format!("ok/worst<{}ms", (worst.as_millis() / 25 + 1) * 25));
     if out.cases_done % 120 == 0 {
@@ -193,7 +209,7 @@ pub fn run(args: Args) {
                 "rule": "schedule = (sync configuration, history of appends, per append: awaited at once | polled once and resumed after step j or at the end, at most 3 parked); all of them up to the stated history length; states = distinct (history, polling schedule)",
             }),
             vec![
-                "'bounded time' is judged with a 5 s deadline, 100x the slowest configured sync interval (50 ms); a deadline miss is reported with the polling schedule that produced it".into(),
+                "'bounded time' is judged with a 5 s deadline, 100x the slowest configured sync interval (50 ms), followed on a miss by one 30 s grace wait (a loaded machine is slow, a lost wake-up is for ever); appends that needed the grace period are counted in the evidence; a miss of both is reported with the polling schedule that produced it".into(),
                 "the writer and syncer threads run freely between the harness's polls; what is owned is when each client future is polled".into(),
             ],
         )
